@@ -58,17 +58,23 @@ def _fields(d):
 class ParserAdapter:
     """a real Requestant or Respondent reading from a bytearray that the harness fills"""
 
-    def __init__(self, kind, wire):
+    def __init__(self, kind, wire, heads=()):
+        """heads[j]: the (j+1)th response answers a HEAD request (the client tells its parser the request method)"""
         env.use_repo()
         from ioflo.aio.http import clienting, serving
         self.kind = kind
         self.wire = to_bytes(wire)
+        self.heads = list(heads)
+        self.nth = 0
         self.sent = 0
         self.buf = bytearray()
         if kind == "req":
             self.parser = serving.Requestant(msg=self.buf, incomer=_Incomer())
         else:
-            self.parser = clienting.Respondent(msg=self.buf, method="GET")
+            self.parser = clienting.Respondent(msg=self.buf, method=self._method())
+
+    def _method(self):
+        return "HEAD" if self.nth < len(self.heads) and self.heads[self.nth] else "GET"
 
     def obs(self):
         ps = self.parser
@@ -100,6 +106,9 @@ class ParserAdapter:
         elif name == "Close":
             ps.close()
         elif name == "Again":
+            self.nth += 1
+            if self.kind == "resp":
+                ps.reinit(method=self._method())     # as Patron.transmit does for the next request
             ps.makeParser()
         else:
             raise NotImplementedError(name)
@@ -121,6 +130,7 @@ CONSTANTS
   ScWire <- FamWire
   ScKind <- FamKind
   ScMsgs <- FamMsgs
+  ScHead <- FamHead
 INVARIANT SplitIndependent
 INVARIANT ObsIsFunctionOfParser
 INVARIANT BufferIsSuffix
@@ -136,6 +146,7 @@ CONSTANTS
   ScWire <- TrWire
   ScKind <- TrKind
   ScMsgs <- TrMsgs
+  ScHead <- TrHead
 CONSTRAINT TraceOK
 INVARIANT ObsIsFunctionOfParser
 INVARIANT BufferIsSuffix
@@ -175,8 +186,9 @@ def _rand_headers(rng, names):
     return out
 
 
-def random_message(rng, kind, last):
-    """-> bytes of one well-formed message; until-close bodies only as the last message of a response stream"""
+def random_message(rng, kind, last, is_head=False):
+    """-> bytes of one well-formed message; until-close bodies only as the last message of a response stream;
+    is_head: the response answers a HEAD request (no body whatever its header fields say)"""
     names = set()
     lines = []
     if kind == "req":
@@ -187,12 +199,18 @@ def random_message(rng, kind, last):
         lines.append("%s %s %s" % (method, target, rng.choice(["HTTP/1.1", "HTTP/1.1", "HTTP/1.0"])))
         framing = rng.choice(["none", "fixed", "fixed", "chunked", "chunked"])
     else:
-        status, reason = rng.choice([(200, "OK"), (201, "Created"), (404, "Not Found"), (500, "Internal Server Error")])
+        status, reason = rng.choice([(200, "OK"), (201, "Created"), (404, "Not Found"), (500, "Internal Server Error"),
+                                     (204, "No Content"), (304, "Not Modified"), (102, "Processing")])
         lines.append("%s %d %s" % (rng.choice(["HTTP/1.1", "HTTP/1.1", "HTTP/1.0"]), status, reason))
-        framing = rng.choice(["fixed", "fixed", "chunked", "chunked"] + (["close"] if last else []))
+        if is_head or status in (204, 304, 102):
+            framing = rng.choice(["none", "length-only", "length-only"])
+        else:
+            framing = rng.choice(["fixed", "fixed", "chunked", "chunked"] + (["close"] if last else []))
     head = [(n, o, v) for (n, o, v) in _rand_headers(rng, names)]
     body = b""
-    if framing == "fixed":
+    if framing == "length-only":     # the size a body would have; no body follows
+        head.insert(rng.randint(0, len(head)), (rng.choice(["Content-Length", "content-length"]), _rand_ows(rng), str(rng.choice([0, 1, 7, 120]))))
+    elif framing == "fixed":
         data = _rand_data(rng, 0, rng.choice([3, 20, 300]))
         head.insert(rng.randint(0, len(head)), (rng.choice(["Content-Length", "content-length", "CONTENT-LENGTH"]), _rand_ows(rng), str(len(data))))
         body = data
@@ -248,14 +266,19 @@ def random_execution(rng):
     nmsg = rng.randint(1, 3)
     msgs = []
     until_close = False
+    heads = []
     for i in range(nmsg):
-        bs, framing = random_message(rng, kind, last=(i == nmsg - 1))
+        hd = kind == "resp" and rng.random() < 0.2
+        bs, framing = random_message(rng, kind, last=(i == nmsg - 1), is_head=hd)
+        if kind == "resp" and rng.random() < 0.1:      # an interim response first
+            bs = b"HTTP/1.1 100 Continue\r\n" + rng.choice([b"", b"A: b\r\n"]) + b"\r\n" + bs
+        heads.append(hd)
         msgs.append(bs)
         until_close = framing == "close"
     extra = b"" if until_close else rng.choice([b"", b"", b"G", b"\r\n", b"HT"])
     wire = b"".join(msgs) + extra
-    ad = ParserAdapter(kind, to_syms(wire))
-    evs = [{"ev": "Init", "kind": kind, "n": nmsg, "wire": list(to_syms(wire))}]
+    ad = ParserAdapter(kind, to_syms(wire), heads)
+    evs = [{"ev": "Init", "kind": kind, "n": nmsg, "heads": heads, "wire": list(to_syms(wire))}]
     # cut points
     npieces = rng.choice([1, 2, 3, 5, 8, 13])
     cuts = sorted(set(rng.randint(1, len(wire)) for _ in range(npieces - 1)) | {len(wire)})
@@ -306,7 +329,7 @@ def run_c29(ctx):
     table_path = work + "/table.json"
     dot = work + "/g.dot"
     res = tlc.run("HttpParseMC", MC_CFG % (level, 3), spec_dir=SPEC_DIR, dump_dot=dot,
-                  extra_env={"TABLE_OUT": table_path}, tag="c29mc")
+                  extra_env={"TABLE_OUT": table_path}, tag="c29mc", timeout=40000)
     ctx.add_model(res, "HttpParseMC", {"Level": level, "MaxPieces": 3})
     if not res.ok:
         ctx.diverge(Divergence("C29", "model", res.error_name or res.error, "HttpParseMC", "specification property violated in the model",
@@ -323,7 +346,7 @@ def run_c29(ctx):
 
     def mk(init):
         row = table[init["sc"] - 1]
-        return ParserAdapter(row["kind"], row["wire"])
+        return ParserAdapter(row["kind"], row["wire"], row["heads"])
 
     n, divs = replay.replay("C29", traces, mk, keys={"obs"})
     for d in divs:
@@ -352,7 +375,7 @@ def run_c29(ctx):
                                        "%s: %s" % (type(ex).__name__, str(ex)[:200]), steps=_short(evs), extra={"wire": repr(wire)}))
             continue
         trs.append(evs)
-    out = trace.validate("HttpParseTrace", TRACE_CFG, SPEC_DIR, trs, batch=100)
+    out = trace.validate("HttpParseTrace", TRACE_CFG, SPEC_DIR, trs, batch=100, timeout=40000)
     ctx.states += out.states
     ctx.transitions += out.generated
     if trs:
